@@ -127,6 +127,33 @@ def long_listing_probe(run):
         run.failure("scan/LONG/-", f"[call, call] on calls at records 8191..8194 of a long listing: {hits}, expected {want}", {"kind": "scan_long", "planted": [8191, 8192, 8193, 8194], "n": n})
 
 
+def times_long_probe(run, key="times/LONG-LISTING"):
+    """C02 on LONG listings, through the whole pipeline (rule file -> MasterOfPuppets): a run matched by a repeated item /
+    group and straddling a power-of-two record border must be found exactly where the n-copies rule finds it."""
+    n = 2 * 8192 + 300
+    rules = {
+        "item_times_10": ["mov", {"call": {"times": 10}}, "mov"],
+        "item_range_10_12": ["mov", {"call": {"times": {"min": 10, "max": 12}}}, "mov"],
+        "sibling_times_10": ["mov", {"call": ["4010"], "times": 10}, "mov"],
+        "or_times_10": ["mov", {"$or": ["call", "jmp"], "times": 10}, "mov"],
+        "and_times_5": ["mov", {"$and": ["call", "call"], "times": 5}, "mov"],
+        "copies_10": ["mov"] + ["call"] * 10 + ["mov"],
+    }
+    for starts in ([4090], [8182, 16380], [2044, 12286]):
+        instrs = [(format(0x400000 + i, "x"), "mov", ["%rax", "%rbx"]) for i in range(n)]
+        for p in starts:
+            for k in range(10):
+                instrs[p + k] = (instrs[p + k][0], "call", ["401000"])
+        text = jasmapi.render_listing(instrs)
+        want = [format(0x400000 + p - 1, "x") for p in starts]
+        for nm, pat in rules.items():
+            got_all = jasmapi.run_pipeline({"pattern": pat}, text, all_matches=True, only_addr=True)
+            got_first = jasmapi.run_pipeline({"pattern": pat}, text, all_matches=False, only_addr=True)
+            run.count("traces_validated_against_impl")
+            if got_all != want or got_first != want[:1]:
+                run.failure(key, f"listing of {n} instructions, runs of 10 calls starting at records {starts}: rule {nm} reports all={got_all} first={got_first}, expected {want}", {"kind": "scan_long", "planted": starts, "n": n})
+
+
 def long_match_probe(run, key="scan/LONGMATCH/-"):
     """ONE occurrence that is itself long (a 300-instruction sled matched by a {250,300} repetition) and straddles a
     power-of-two record border: first-match and all-matches must report the same, whole, occurrence (concrete validation)."""
